@@ -53,6 +53,30 @@ def frequency_test(r, n_seeds):
         "placeholder_targets_vs_decoys": [["OBSOLETE__T1"], ["OBSOLETE__T2"], ["OBSOLETE__T3"], ["REV__D1"], ["REV__D2"], ["REV__D3"]],
         "decoys_listed_first": [["REV__D1"], ["REV__D2"], ["REV__D3"], ["T1"], ["T2"], ["T3"]],
     }
+    # a target and its own decoy twin with equal scores: which of them survives the picked competition must be a coin flip,
+    # whichever is listed first
+    twins = {"twin_target_listed_first": [["T1"], ["REV__T1"], ["T2"], ["REV__T2"], ["T3"], ["REV__T3"]],
+             "twin_decoy_listed_first": [["REV__T1"], ["T1"], ["REV__T2"], ["T2"], ["REV__T3"], ["T3"]]}
+    for sname, groups in twins.items():
+        infos = [[["1/1024", f"PEP{i}K", list(g)]] for i, g in enumerate(groups)]
+        scores = ["2/1"] * 6
+        for strat in ("picked_group", "picked"):
+            wins, total = 0, 0
+            for seed in range(n_seeds):
+                out = run_competition(strat, groups, infos, scores, seed + 1000 * r.seed)
+                if "ok" in out:
+                    surv = [g[0][0] for g in out["ok"]]
+                    total += 3
+                    wins += sum(1 for x in surv if "REV__" not in x)
+            z = (wins - total / 2) / math.sqrt(max(total, 1) / 4)
+            results[f"{sname}/{strat}"] = {"seeds": n_seeds, "pairs": total, "target_survives": wins, "z": round(z, 2)}
+            if abs(z) > 6 and not results.get("reported"):
+                results["reported"] = True
+                r.violation("property-failure",
+                            {"suite": "frequency_test", "scenario": sname, "strategy": strat, "groups": groups, "scores": scores,
+                             "seeds": [1000 * r.seed, 1000 * r.seed + n_seeds], "target_survives": wins, "pairs": total},
+                            found_input=True,
+                            what=f"tied twin competition is biased ({sname}, {strat}): the target survives in {wins}/{total} pairs (z={z:.1f})")
     for sname, groups in scenarios.items():
         infos = [[["1/1024", f"PEP{i}K", list(g)]] for i, g in enumerate(groups)]
         scores = ["2/1"] * 6
